@@ -59,6 +59,10 @@ def str_of(it, v, what="argument"):
               "remainder, empty tokens dropped; concat(result) == key (hence injective).  The "
               "body is proved against the README layout in props/shard.py.")
 def _shard(it, self, checksum):
+    if isinstance(checksum, VPath) and not checksum.pathobj:
+        r = VShard(pathstr(loc_of(it, checksum)))
+        r.absolute = True
+        return r
     return VShard(str_of(it, checksum, "checksum"))
 
 
@@ -66,6 +70,8 @@ def _shard(it, self, checksum):
           cases={"digest": lambda it: [make_self(it), sym_str("hash_id")]},
           props={"*": ("C15", "C18")})
 def _build_hashstore_data_object_path(it, self, hash_id):
+    if isinstance(hash_id, VPath) and not hash_id.pathobj:
+        return VPath(A_EXT, (("garbage", pathstr(loc_of(it, hash_id))),), False)
     return VPath(A_OBJECTS, (("shard", str_of(it, hash_id)),), pathobj=False)
 
 
@@ -210,14 +216,19 @@ def _delete_marked_files(it, delete_list):
     return NONE
 
 
+def _cidrefs_path(it):
+    k = z3.String("cidk")
+    it.ctx.assume(T.ishex(k))
+    return VPath(A_CIDS, (("shard", k),))
+
+
 def _lines_file_case(it, name="refs"):
     loc = _any_store_loc(it, name)
     return loc
 
 
 @contract("FileHashStore._is_string_in_refs_file",
-          cases={"cid refs": lambda it: [sym_str("ref_id"),
-                                         VPath(A_CIDS, (("shard", z3.String("cidk")),))],
+          cases={"cid refs": lambda it: [sym_str("ref_id"), _cidrefs_path(it)],
                  "any": lambda it: [sym_str("ref_id"), VLocPath(_any_store_loc(it))]},
           props={"*": ("C03", "C05", "C18")})
 def _is_string_in_refs_file(it, ref_id, refs_file_path):
@@ -260,7 +271,9 @@ def _mktmpfile(it, self, path):
                  "cid": lambda it: [make_self(it), VPath(A_REFS_TMP), sym_str("ref_id"), VStr("cid")]},
           pre=lambda it, self, path, ref_id, ref_type: [
               ("ref-type-known", z3.Or(ref_type.term == z3.StringVal("pid"),
-                                       ref_type.term == z3.StringVal("cid")))],
+                                       ref_type.term == z3.StringVal("cid"))),
+              ("line-wsfree", z3.Implies(ref_type.term == z3.StringVal("cid"),
+                                         T.wsfree(str_of(it, ref_id))))],
           compare=("outcome", "result", "fs", "locks", "self"),
           props={"*": ("C05", "C09", "C15", "C03")})
 def _write_refs_file(it, self, path, ref_id, ref_type):
@@ -280,10 +293,9 @@ def _write_refs_file(it, self, path, ref_id, ref_type):
 
 
 @contract("FileHashStore._update_refs_file",
-          cases={"add": lambda it: [make_self(it), VPath(A_CIDS, (("shard", z3.String("cidk")),)),
-                                    sym_str("ref_id"), VStr("add")],
-                 "remove": lambda it: [make_self(it), VPath(A_CIDS, (("shard", z3.String("cidk")),)),
-                                       sym_str("ref_id"), VStr("remove")]},
+          cases={"add": lambda it: [make_self(it), _cidrefs_path(it), sym_str("ref_id"), VStr("add")],
+                 "remove": lambda it: [make_self(it), _cidrefs_path(it), sym_str("ref_id"),
+                                       VStr("remove")]},
           pre=lambda it, self, refs_file_path, ref_id, update_type: [
               ("ref-id-wsfree", T.wsfree(ref_id.term))],
           props={"*": ("C03", "C04", "C05", "C18")})
